@@ -38,6 +38,10 @@ type c36RaceCase struct {
 	FlipTo      int       `json:"flip_to"`
 	FlipBetween bool      `json:"flip_between"` // the coordinator moves after wave 1 completed and before wave 2 starts
 	Coord       int       `json:"coord"`        // coordinator at the start
+	Stale       bool      `json:"stale"`        // one node holds a stale membership view during wave 1 (no coordinator move in this case)
+	StaleNode   int       `json:"stale_node"`   // the node with the stale view (never the coordinator)
+	StaleTo     int       `json:"stale_to"`     // whom it still believes to be the coordinator (the third node, whose own view is current)
+	StaleHeals  bool      `json:"stale_heals"`  // the view is refreshed between the waves (else it stays stale for wave 2)
 	NoiseSeed   uint64    `json:"noise_seed"`
 	NoiseProb   float64   `json:"noise_prob"`
 	NoiseSleep  int       `json:"noise_sleep_us"`
@@ -61,7 +65,8 @@ func c36RaceGen(t *rapid.T) c36RaceCase {
 	c.Wave1 = c36GenCalls(t, "w1", 2, 6)
 	c.Wave2 = c36GenCalls(t, "w2", 0, 3)
 	c.Coord = rapid.SampledFrom([]int{0, 0, 1, 2}).Draw(t, "coord")
-	if rapid.IntRange(0, 3).Draw(t, "flip") == 0 {
+	shape := rapid.IntRange(0, 7).Draw(t, "shape")
+	if shape <= 1 {
 		c.FlipTo = (c.Coord + rapid.IntRange(1, 2).Draw(t, "flip_by")) % 3
 		// While the finding "the coordinator moves while SpawnSingleton calls are in flight and
 		// the old coordinator keeps running -> two live instances" is listed as known, the
@@ -72,6 +77,17 @@ func c36RaceGen(t *rapid.T) c36RaceCase {
 		} else {
 			c.FlipAt = rapid.IntRange(1, 14).Draw(t, "flip_at")
 		}
+	} else if shape <= 4 {
+		// Stale view at one delegating caller, leadership itself stable: node StaleNode still
+		// names the former coordinator StaleTo (whose own view is current, so exactly one node
+		// believes to be the coordinator). The first two calls of wave 1 come from the stale
+		// node and from a node with a current view (construction, not rejection).
+		c.Stale = true
+		c.StaleNode = (c.Coord + rapid.IntRange(1, 2).Draw(t, "stale_node")) % 3
+		c.StaleTo = 3 - c.Coord - c.StaleNode
+		c.StaleHeals = rapid.Bool().Draw(t, "stale_heals")
+		c.Wave1[0].Node = c.StaleNode
+		c.Wave1[1].Node = rapid.SampledFrom([]int{c.Coord, c.StaleTo}).Draw(t, "current_caller")
 	}
 	c.NoiseSeed = rapid.Uint64().Draw(t, "noise_seed")
 	c.NoiseProb = rapid.SampledFrom([]float64{0, 0.05, 0.2, 0.5}).Draw(t, "noise_prob")
@@ -133,6 +149,11 @@ func c36RaceExec(x *vfkit.X, c c36RaceCase) {
 	name := fmt.Sprintf("s%d", id)
 	plan := &c36Plan{flipAt: int64(c.FlipAt), flipTo: int32(c.FlipTo), noiseSeed: c.NoiseSeed, noiseProb: c.NoiseProb, noiseSleep: c.NoiseSleep, faults: map[string]int{}, counts: map[string]int{}}
 	plan.coord.Store(int32(c.Coord))
+	plan.staleNode.Store(-1)
+	if c.Stale {
+		plan.staleTo = int32(c.StaleTo)
+		plan.staleNode.Store(int32(c.StaleNode))
+	}
 	f.reg.plan.Store(plan)
 	defer func() {
 		f.reg.plan.Store(nil)
@@ -156,6 +177,9 @@ func c36RaceExec(x *vfkit.X, c c36RaceCase) {
 		plan.coord.Store(int32(c.FlipTo))
 		x.Class("leader_change_between_waves")
 	}
+	if c.Stale && c.StaleHeals {
+		plan.staleNode.Store(-1)
+	}
 	r2 := c36RunWave(f, &clock, name, c.Role, c.Wave2)
 	all := append(append([]c36Result(nil), r1...), r2...)
 
@@ -170,7 +194,7 @@ func c36RaceExec(x *vfkit.X, c c36RaceCase) {
 			x.Logf("call node=%d offset=%d -> %s", r.call.Node, r.call.Offset, r.addr)
 		}
 	}
-	x.Logf("instances: live=%d max=%d starts=%d hosts=%v coordinator %d -> flipped=%v (to %d at op %d), registry ops=%d", inst.Live, inst.Max, inst.Starts, inst.Hosts, c.Coord, plan.flipped.Load(), c.FlipTo, c.FlipAt, plan.ops.Load())
+	x.Logf("instances: live=%d max=%d starts=%d trace=%v coordinator %d -> flipped=%v (to %d at op %d); stale view: %v (node %d still names %d); registry ops=%d", inst.Live, inst.Max, inst.Starts, inst.Trace, c.Coord, plan.flipped.Load(), c.FlipTo, c.FlipAt, c.Stale, c.StaleNode, c.StaleTo, plan.ops.Load())
 
 	if inst.Max > 1 || inst.Live > 1 {
 		fp := "singleton-two-live-instances"
@@ -178,8 +202,10 @@ func c36RaceExec(x *vfkit.X, c c36RaceCase) {
 			fp = "singleton-two-live-instances-leader-change"
 		} else if c.FlipBetween {
 			fp = "singleton-two-live-instances-after-leader-change"
+		} else if c.Stale {
+			fp = "singleton-two-live-instances-stale-view-at-delegating-caller"
 		}
-		x.Failf(fp, "singleton %q (role %q): %d instances were alive at the same time (live now %d) on %v; %d calls succeeded, %d failed; coordinator moved during the calls: %v", name, c.Role, inst.Max, inst.Live, inst.Hosts, okCalls, failed, plan.flipped.Load())
+		x.Failf(fp, "singleton %q (role %q): %d instances were alive at the same time (live now %d) on %v; %d calls succeeded, %d failed; coordinator moved during the calls: %v; stale view at node %d (names %d, real coordinator %d): %v", name, c.Role, inst.Max, inst.Live, inst.Trace, okCalls, failed, plan.flipped.Load(), c.StaleNode, c.StaleTo, c.Coord, c.Stale)
 	}
 	for _, r := range all {
 		if r.err != nil {
@@ -215,6 +241,12 @@ func c36RaceExec(x *vfkit.X, c c36RaceCase) {
 	} else if c.FlipAt > 0 {
 		x.Class("leader_change_never_reached")
 	} else if c.FlipBetween {
+	} else if c.Stale {
+		if c.StaleHeals {
+			x.Class("stale_view_at_one_caller_heals_between_waves")
+		} else {
+			x.Class("stale_view_at_one_caller_both_waves")
+		}
 	} else {
 		x.Class("stable_leader")
 	}
@@ -250,7 +282,7 @@ func TestVF_C36_race(t *testing.T) {
 	defer c36StopFixture()
 	vfkit.Run(t, vfkit.Spec[c36RaceCase]{
 		ID: "C36", Unit: "race",
-		Rule: "cases = 2..6 concurrent SpawnSingleton calls for one fresh name from generated nodes of a 3-node simulated cluster (start offsets 0..1.5 ms), singleton role none / r1 / r2, initial coordinator, then 0..3 further concurrent calls; in 1 of 4 cases the coordinator flag moves to another node while the old coordinator keeps running, either between the two waves or (unless the finding singleton-two-live-instances-leader-change is listed as known) at the k-th (1..14) registry operation of the case; every registry operation is a seeded noise point (prob 0..0.5, Gosched or sleep up to 300 us); non-trivial = two first-wave calls issued from different nodes overlapped in (logical) time; distinct = distinct case values",
+		Rule: "cases = 2..6 concurrent SpawnSingleton calls for one fresh name from generated nodes of a 3-node simulated cluster (start offsets 0..1.5 ms), singleton role none / r1 / r2, initial coordinator, then 0..3 further concurrent calls; in 3 of 8 cases exactly one non-coordinator node holds a stale membership view during wave 1 (it still names the third node, whose own view is current, as coordinator; leadership itself does not move; the view heals between the waves or not) and the first two calls come from the stale node and from a current one; in 2 of 8 cases the coordinator flag moves to another node while the old coordinator keeps running, either between the two waves or (unless the finding singleton-two-live-instances-leader-change is listed as known) at the k-th (1..14) registry operation of the case; every registry operation is a seeded noise point (prob 0..0.5, Gosched or sleep up to 300 us); non-trivial = two first-wave calls issued from different nodes overlapped in (logical) time; distinct = distinct case values",
 		Gen:  c36RaceGen, Exec: c36RaceExec,
 		ReplayReps: 30,
 	})
